@@ -91,6 +91,8 @@ pub struct GenCfg {
     pub group_arr: bool,
     pub end_inside: bool,
     pub emit_in_andis_rhs: bool,
+    /// nested_in over group tokens (token-tree inputs, C16)
+    pub nested: bool,
 }
 
 impl GenCfg {
@@ -131,6 +133,7 @@ impl GenCfg {
             group_arr: true,
             end_inside: true,
             emit_in_andis_rhs: false,
+            nested: false,
         }
     }
     /// every node family the builder supports (C04 / C20 registry class)
@@ -345,6 +348,7 @@ impl<'t, 'd> GGen<'t, 'd> {
             w(c.track, 6),                       // 25 tracked value
             2,                                   // 26 group
             w(c.lazy && c.value_input, 1),       // 27 lazy
+            w(c.nested, 9),                      // 28 nested_in
         ];
         let d = depth - 1;
         match self.t.weighted(&weights) {
@@ -523,7 +527,11 @@ impl<'t, 'd> GGen<'t, 'd> {
                     G::Group(v)
                 }
             }
-            _ => G::Lazy(b(self.gen(d, guarded))),
+            27 => G::Lazy(b(self.gen(d, guarded))),
+            _ => {
+                // the group token is consumed before the inner parser runs on its children
+                G::NestedIn(b(self.gen(d, true)))
+            }
         }
     }
 
@@ -830,6 +838,11 @@ pub fn sample(g: &G, t: &mut Tape, alpha: &[char], out: &mut Vec<char>, recs: &m
             sample(a, t, alpha, out, recs, depth)
         }
         Recover(a, _) => sample(a, t, alpha, out, recs, depth),
+        NestedIn(a) => {
+            out.push(GOPEN);
+            sample(a, t, alpha, out, recs, depth);
+            out.push(GCLOSE);
+        }
         Rec(id, body) => {
             recs.push((*id, &**body as *const G));
             sample(body, t, alpha, out, recs, depth);
